@@ -154,6 +154,12 @@ void           _dbus_bus_notify_shared_connection_disconnected_unlocked (DBusCon
 /** @} */
 
 
+#ifdef DBUS_VERIF
+DBUS_PRIVATE_EXPORT
+dbus_bool_t       _dbus_verif_connection_dump                  (DBusConnection     *connection,
+                                                                DBusString         *out);
+#endif
+
 DBUS_END_DECLS
 
 #endif /* DBUS_CONNECTION_INTERNAL_H */
